@@ -30,6 +30,7 @@ import ast
 
 from ..source import norm, short, qualname
 from ..flow import own_nodes
+from ..source import AnalysisError
 from .. import mutate as mu
 
 PROP = 'C19'
@@ -130,6 +131,22 @@ def check(ctx, rep):
         order = [first_stmt_calling('self._find_next'), first_stmt_calling('self._scalars.set'), first_stmt_calling('self.for_stack.append')]
         ok = None not in order and order == sorted(order) and len(set(order)) == 3
         rep.ob('for.order', 'find NEXT, then initialise the variable, then push', ok, '', ctx.where(for_))
+        # the limit and the step are fixed when FOR runs: what goes into the frame is a copy, not a view on a variable
+        # (values.to_type returns its argument unchanged when the type already fits, and a variable reads as a view)
+        n_copy = 0
+        for e in push.args[0].elts:
+            if not isinstance(e, ast.Name):
+                continue
+            for a in own_nodes(for_):
+                if isinstance(a, ast.Assign) and norm(a.targets[0]) == e.id and any(
+                        isinstance(c, ast.Call) and norm(c.func) == 'values.to_type' for c in ast.walk(a.value)):
+                    n_copy += 1
+                    v = a.value
+                    rep.ob('for.frame-holds-copies', 'for_: `%s` in the frame is a copy of the converted argument' % e.id,
+                           isinstance(v, ast.Call) and isinstance(v.func, ast.Attribute) and v.func.attr == 'clone' and not v.args,
+                           'the frame would alias the variable named as limit or step: assigning to it in the body moves the end of the loop (%s)' % short(a, 60),
+                           ctx.where(a))
+        rep.floor('for.frame-holds-copies', n_copy, 2, 'converted arguments stored in the frame')
     it = ctx.fn(INTERP + ':Interpreter.iterate_loop')
     fl = ctx.flow(it)
     ops = _stack_ops(it, 'for_stack')
@@ -264,6 +281,29 @@ def check(ctx, rep):
     fl = ctx.flow(if_)
     j = [n for n in own_nodes(if_) if isinstance(n, ast.Call) and norm(n) == 'self.jump(branch)']
     rep.ob('if.line-number-jumps', 'a line number after THEN/ELSE jumps', len(j) == 1 and fl.knows(j[0], 'branch is not None', True), '', ctx.where(if_))
+    # a bare ELSE is what execution meets after a THEN branch that did not jump: everything up to the end of the
+    # line belongs to the ELSE clause and is skipped (REM likewise); DATA only skips to the end of the statement
+    stm = 'pcbasic/basic/parser/statements.py'
+    init = ctx.fn(stm + ':Parser._init_syntax')
+    simple = [n.value for n in own_nodes(init) if isinstance(n, ast.Assign) and norm(n.targets[0]) == 'self._simple' and isinstance(n.value, ast.Dict)]
+    rep.floor('if.else-skips-rest-of-line', len(simple), 1, 'self._simple tables')
+    want = {'tk.ELSE': 'END_LINE', 'tk.REM': 'END_LINE', 'tk.DATA': 'END_STATEMENT'}
+    for d in simple:
+        entries = dict((norm(k), v) for k, v in zip(d.keys, d.values))
+        for key, until in sorted(want.items()):
+            v = entries.get(key)
+            got = None
+            if v is not None and norm(v).startswith('self.'):
+                try:
+                    m = ctx.fn(stm + ':Parser.' + norm(v)[5:])
+                except AnalysisError:
+                    m = None
+                if m is not None:
+                    calls = [c for c in own_nodes(m) if isinstance(c, ast.Call)]
+                    if len(calls) == 1 and norm(calls[0].func) == 'ins.skip_to' and len(calls[0].args) == 1:
+                        got = norm(calls[0].args[0]).split('.')[-1]
+            rep.ob('if.else-skips-rest-of-line', '%s is parsed by skipping to %s' % (key, until), got == until,
+                   'the table sends %s to %s, which skips to %s' % (key, norm(v) if v is not None else None, got), ctx.where(d))
     # jump(): undefined line
     jp = ctx.fn(INTERP + ':Interpreter.jump')
     fl = ctx.flow(jp)
@@ -312,6 +352,17 @@ def variants(ctx):
            expect='if.condition'),
         Va('return-without-gosub-as-ifc', 'break', INTERP,
            in_fn('return_', lambda fn: mu.replace_expr(fn, mu.text_is('error.RETURN_WITHOUT_GOSUB'), 'error.IFC')), expect='errors'),
+        Va('for-limit-aliases-variable', 'break', INTERP,
+           in_fn('for_', lambda fn: mu.replace_expr(fn, mu.text_is('values.to_type(vartype, next(args)).clone()'), 'values.to_type(vartype, next(args))', count=2)),
+           expect='for.frame-holds-copies'),
+        Va('for-step-aliases-variable', 'break', INTERP,
+           in_fn('for_', lambda fn: mu.replace_expr(fn, mu.text_is('values.to_type(vartype, step).clone()'), 'values.to_type(vartype, step)')),
+           expect='for.frame-holds-copies'),
+        Va('for-start-not-copied', 'neutral', INTERP,
+           in_fn('for_', lambda fn: mu.replace_expr(fn, mu.text_is('values.to_type(vartype, next(args)).clone()'), 'values.to_type(vartype, next(args))', count=1))),
+        Va('else-skips-one-statement-only', 'break', 'pcbasic/basic/parser/statements.py',
+           lambda tree: mu.set_dict_value(mu.find_assign_value(mu.find_def(tree, 'Parser._init_syntax'), 'self._simple'), 'tk.ELSE', 'self._skip_statement'),
+           expect='if.else-skips-rest-of-line'),
         Va('for-push-via-local', 'neutral', INTERP, in_fn('for_', lambda fn: mu.rename_local(fn, 'ins', 'stream'))),
     ]
 
